@@ -45,6 +45,13 @@ struct Lower {
         RIns i; i.k = v.k == Val::ADD ? RIns::ADDC : RIns::SUBC; i.dst = d; i.a = V(v.var); i.c = v.c; emit(i);
         return d;
       }
+      case Val::BADD: case Val::BMUL: case Val::DBL: {
+        // the macro expansion of the infix form: calls of the user programs add / mul (and 2 * x for @ x)
+        Val call; call.k = Val::CALL; call.callee = v.k == Val::BADD ? "add" : "mul";
+        if (v.k == Val::DBL) { Val two; two.k = Val::CONST; two.c = 2; call.args.push_back(two); call.args.push_back(v.args[0]); }
+        else { call.args.push_back(v.args[0]); call.args.push_back(v.args[1]); }
+        return value(call, dst);
+      }
       case Val::CALL: {
         int callee = resolve(v.callee);
         std::vector<Opd> args;
@@ -108,6 +115,16 @@ struct Lower {
         { RIns i; i.k = RIns::MOV; i.dst = t; i.a = V(s.var); emit(i); }
         { RIns i; i.k = RIns::MOV; i.dst = V(s.var); i.a = V(s.var2); emit(i); }
         { RIns i; i.k = RIns::MOV; i.dst = V(s.var2); i.a = t; emit(i); }
+        break;
+      }
+      case Stmt::TWICE: {
+        // #0 := c ; LOOP #0 DO v := v + 1 END ; LOOP #0 DO LOOP #0 DO v := v + 1 END END   (v grows by c + c*c)
+        Opd t = V("#twice" + std::to_string(hidden++));
+        Opd v = V(s.var);
+        { RIns i; i.k = RIns::MOV; i.dst = t; i.a = C(s.c); emit(i); }
+        auto inc = [&]() { RIns i; i.k = RIns::ADDC; i.dst = v; i.a = v; i.c = 1; emit(i); };
+        loop_on(t, nullptr, inc, -1);
+        loop_on(t, nullptr, [&]() { loop_on(t, nullptr, inc, -1); }, -1);
         break;
       }
       case Stmt::ITE: {
